@@ -52,6 +52,8 @@ pub struct Value { _p: u8 }
 impl Clone for Value { #[verifier::external_body] fn clone(&self) -> (r: Self) ensures r == *self { Value { _p: 0 } } }
 impl Copy for Value {}
 impl Value {
+    #[verifier::external_body]
+    fn none_value() -> Value { unimplemented!() }
     #[verifier::external_body] #[allow(non_snake_case)]
     fn ObjClosure(g: Gc<ObjClosure>) -> Value { unimplemented!() }
 }
@@ -78,7 +80,7 @@ impl ExcHandler {
     #[verifier::external_body]
     fn has_catch_block(&self) -> bool { unimplemented!() }
 }
-//@struct file=yarel/src/object.rs name=ObjFiber keepfields=caller,stack,frames,return_ip,return_value,error_ip,handling_exception,pending_exception,return_handler_count,return_frame_count,exc_handlers map "*const u8" => "usize" map "Stack<Value, STACK_MAX>" => "StackS" addfield "pub ghost closed_from: int" addfield "pub ghost has_handler: bool" addfield "pub ghost height: int"
+//@struct file=yarel/src/object.rs name=ObjFiber keepfields=caller,stack,frames,return_ip,return_value,error_ip,handling_exception,pending_exception,return_handler_count,return_frame_count,pending_frame_count,exc_handlers map "*const u8" => "usize" map "Stack<Value, STACK_MAX>" => "StackS" addfield "pub ghost closed_from: int" addfield "pub ghost has_handler: bool" addfield "pub ghost height: int"
 impl ObjFiber {
     //@fn file=yarel/src/object.rs path=ObjFiber::has_finished ret=r
     //@  ensures r == (self.frames@.len() == 0)
@@ -201,6 +203,7 @@ impl Vm {
     // Returning from a frame: the frame's captured variables must have been closed by the time the frame is popped,
     // also when it is the fiber's outermost frame (its stack dies with the fiber object).
     //@fn file=yarel/src/vm.rs path=Vm::return_impl ret=r props=C06
+    //@  subst "Value::None" => "Value::none_value()"
     //@  requires old(self).coherent(), old(self).fiber is Some, old(self).active.frames@.len() > 0
     //@  ensures final(self).coherent()
     //@  at body.start proof { self.active.closed_from = 0x7fff_ffff_ffff_ffff; }
